@@ -32,6 +32,7 @@ import (
 	"sigs.k8s.io/controller-runtime/pkg/event"
 
 	"github.com/jcmoraisjr/haproxy-ingress/pkg/controller/reconciler"
+	"github.com/jcmoraisjr/haproxy-ingress/pkg/controller/services"
 	convtypes "github.com/jcmoraisjr/haproxy-ingress/pkg/converters/types"
 
 	"hapverif/gen"
@@ -549,6 +550,401 @@ func emitWorld(cfgShape string, ops []string) {
 	stat("world_len_"+strconv.Itoa(len(ops)), 1)
 }
 
+// ---------------------------------------------------------------- listings (GetIngressList, full syncs)
+
+// orderClient: the client the facade reads from, listing Ingresses in a chosen order. client.List of
+// the informer cache gives no order guarantee (it iterates an index map), so every order is a legal answer.
+// Named ingresses come first (first occurrence in order), the others follow in name order.
+type orderClient struct {
+	client.Client
+	order []string
+}
+
+func (o *orderClient) List(ctx context.Context, list client.ObjectList, opts ...client.ListOption) error {
+	if err := o.Client.List(ctx, list, opts...); err != nil {
+		return err
+	}
+	if l, ok := list.(*networking.IngressList); ok {
+		rank := map[string]int{}
+		for i, n := range o.order {
+			if _, dup := rank[n]; !dup {
+				rank[n] = i
+			}
+		}
+		sort.SliceStable(l.Items, func(a, b int) bool {
+			ra, oka := rank[l.Items[a].Name]
+			rb, okb := rank[l.Items[b].Name]
+			switch {
+			case oka && okb:
+				return ra < rb
+			case oka != okb:
+				return oka
+			}
+			return l.Items[a].Name < l.Items[b].Name
+		})
+	}
+	return nil
+}
+
+// orderedFacade replaces the facade of env by a REAL facade (same constructor, same configuration, tracker and
+// dynamic config) reading through an orderClient, for the converters as well.
+func orderedFacade(env *xnsworld.Env) *orderClient {
+	oc := &orderClient{Client: env.Cli}
+	env.Cache = services.VerifCreateCacheFacade(context.Background(), oc, env.Cfg, env.Tracker,
+		services.CreateSSLCerts(env.Cfg), env.Dyn, func(client.Object) {})
+	env.Opts.Cache = env.Cache
+	return oc
+}
+
+func ingName(i int) string { return "i" + strconv.Itoa(i) }
+
+func orderNames(digits string) []string {
+	var res []string
+	for _, ch := range digits {
+		res = append(res, ingName(int(ch-'0')))
+	}
+	return res
+}
+
+// emitList: a cluster of ingresses i0..i(n-1) with the given class states, listed by the client in `order`,
+// handed to the real GetIngressList. Output: the indexes of the returned ingresses in answer order.
+func emitList(cfg string, items []string, order string) {
+	objs := classObjs()
+	for k, it := range items {
+		ac := strings.Split(it, "/")
+		objs = append(objs, mkIng(ingName(k), ac[0], ac[1], fp{}))
+	}
+	env := xnsworld.NewEnv(settings(cfg), objs...)
+	defer env.Close()
+	oc := orderedFacade(env)
+	oc.order = orderNames(order)
+	impl := func() (s string) {
+		defer func() {
+			if r := recover(); r != nil {
+				s = "PANIC"
+			}
+		}()
+		list, err := env.Cache.GetIngressList()
+		if err != nil {
+			return "ERR"
+		}
+		var ids []string
+		for _, x := range list {
+			k, err := strconv.Atoi(strings.TrimPrefix(x.Name, "i"))
+			if err != nil || x.Namespace != "a" || k >= len(items) {
+				k = 99
+			}
+			ids = append(ids, strconv.Itoa(k))
+		}
+		if len(ids) == 0 {
+			return "-"
+		}
+		return strings.Join(ids, ",")
+	}()
+	emit("list "+cfg+" "+strings.Join(items, ",")+" "+order, impl)
+	stat("list", 1)
+	stat("list_n_"+strconv.Itoa(len(items)), 1)
+	for _, it := range items {
+		if strings.HasPrefix(it, "f1/") {
+			stat("list_has_empty_annotation", 1)
+			break
+		}
+	}
+}
+
+// lworld: several ingresses through real watchers + real converters over the ordering facade.
+type lworld struct {
+	*wworld
+	oc    *orderClient
+	first bool
+	dom   map[int]bool
+	n     int
+}
+
+func newLWorld(cfg string, n int) *lworld {
+	svc := &api.Service{ObjectMeta: metav1.ObjectMeta{Namespace: "a", Name: "svc"},
+		Spec: api.ServiceSpec{ClusterIP: "10.0.0.1", Ports: []api.ServicePort{{Port: 8080, TargetPort: intstr.FromInt(8080)}}}}
+	ep := &api.Endpoints{ObjectMeta: metav1.ObjectMeta{Namespace: "a", Name: "svc"},
+		Subsets: []api.EndpointSubset{{Addresses: []api.EndpointAddress{{IP: "172.17.0.11"}},
+			Ports: []api.EndpointPort{{Port: 8080, Protocol: api.ProtocolTCP}}}}}
+	env := xnsworld.NewEnv(settings(cfg), append(classObjs(), svc, ep)...)
+	oc := orderedFacade(env) // before the watchers: they validate through the same facade
+	ww := &wworld{env: env, ctx: context.Background(), q: &reconciler.VerifQueue{},
+		objs: map[int]*networking.Ingress{}, fps: map[int]fp{}}
+	ww.w = reconciler.VerifCreateWatchers(ww.ctx, env.Cfg, env.Cache)
+	for _, h := range ww.w.Handlers() {
+		switch h.Type().(type) {
+		case *networking.Ingress:
+			ww.ing = h
+		case *networking.IngressClass:
+			ww.icl = h
+		}
+	}
+	lw := &lworld{wworld: ww, oc: oc, first: true, dom: map[int]bool{}, n: n}
+	lw.reconcile(false) // start-up: full sync of the empty cluster
+	return lw
+}
+
+func (lw *lworld) reconcile(full bool) {
+	ch := lw.w.GetChangedObjects()
+	if lw.first {
+		ch.GlobalConfigMapDataNew = map[string]string{}
+		lw.first = false
+	} else if ch.GlobalConfigMapDataCur == nil {
+		ch.GlobalConfigMapDataCur = map[string]string{}
+	}
+	if full {
+		// what reconciler.go does with a queued item whose fullsync flag is set (a handler with full: true,
+		// leader change, start-up)
+		ch.NeedFullSync = true
+	}
+	lw.env.Sync(ch)
+	lw.env.Commit()
+}
+
+func (lw *lworld) bits() string {
+	hosts := map[string]bool{}
+	for _, h := range lw.env.Hostnames() {
+		hosts[h] = true
+	}
+	var sb strings.Builder
+	for k := 0; k < lw.n; k++ {
+		sb.WriteString(b2s(hosts[ingName(k)+".local"]))
+	}
+	return sb.String()
+}
+
+func (lw *lworld) op(op string) (res string) {
+	defer func() {
+		if r := recover(); r != nil {
+			res = strings.Repeat("P", lw.n)
+		}
+	}()
+	ctx := lw.ctx
+	if strings.HasPrefix(op, "F") {
+		named := map[int]bool{}
+		for _, ch := range op[1:] {
+			named[int(ch-'0')] = true
+		}
+		for k := range lw.dom {
+			if !named[k] {
+				return lw.bits() // not an answer of a consistent client: skipped (as in the model)
+			}
+		}
+		lw.oc.order = orderNames(op[1:])
+		lw.reconcile(true)
+		return lw.bits()
+	}
+	f := strings.Split(op, ":")
+	i, err := strconv.Atoi(f[0][1:])
+	must(err)
+	lw.dom[i] = true
+	name := ingName(i)
+	switch {
+	case f[0][0] == 'c' && len(f) == 2:
+		if lw.objs[i] == nil {
+			ac := strings.Split(f[1], "/")
+			ing := mkIng(name, ac[0], ac[1], fp{})
+			must(lw.env.Cli.Create(ctx, ing.DeepCopy()))
+			lw.objs[i], lw.fps[i] = ing, fp{}
+			fire(lw.ing, ctx, lw.q, 'c', nil, ing)
+		}
+	case f[0][0] == 'u' && len(f) == 3:
+		if old := lw.objs[i]; old != nil {
+			ac := strings.Split(f[1], "/")
+			nf := touch(lw.fps[i], f[2])
+			ing := mkIng(name, ac[0], ac[1], nf)
+			apiUpdate(old, ing)
+			cur := &networking.Ingress{}
+			must(lw.env.Cli.Get(ctx, client.ObjectKeyFromObject(ing), cur))
+			upd := ing.DeepCopy()
+			upd.ResourceVersion = cur.ResourceVersion
+			must(lw.env.Cli.Update(ctx, upd))
+			lw.objs[i], lw.fps[i] = ing, nf
+			fire(lw.ing, ctx, lw.q, 'u', old, ing)
+		}
+	case f[0][0] == 'd' && len(f) == 1:
+		if old := lw.objs[i]; old != nil {
+			must(lw.env.Cli.Delete(ctx, old.DeepCopy()))
+			delete(lw.objs, i)
+			delete(lw.fps, i)
+			fire(lw.ing, ctx, lw.q, 'd', old, nil)
+		}
+	}
+	lw.env.Cli.Reads()
+	lw.reconcile(false)
+	return lw.bits()
+}
+
+func lsyncN(ops []string) int {
+	n := 0
+	for _, op := range ops {
+		if strings.HasPrefix(op, "F") || len(op) < 2 {
+			continue
+		}
+		if i, err := strconv.Atoi(strings.Split(op, ":")[0][1:]); err == nil && i > n {
+			n = i
+		}
+	}
+	return n + 1
+}
+
+func emitLSync(cfg string, ops []string) {
+	lw := newLWorld(cfg, lsyncN(ops))
+	defer lw.env.Close()
+	res := make([]string, len(ops))
+	for k, op := range ops {
+		res[k] = lw.op(op)
+	}
+	emit("lsync "+cfg+" "+strings.Join(ops, ","), strings.Join(res, "/"))
+	stat("lsync", 1)
+	stat("lsync_ingresses_"+strconv.Itoa(lw.n), 1)
+	nf := 0
+	for _, op := range ops {
+		if strings.HasPrefix(op, "F") {
+			nf++
+		}
+	}
+	stat("lsync_full_syncs", nf)
+}
+
+func perms(n int) []string {
+	var res []string
+	var rec func(prefix string, used int)
+	rec = func(prefix string, used int) {
+		if len(prefix) == n {
+			res = append(res, prefix)
+			return
+		}
+		for k := 0; k < n; k++ {
+			if used&(1<<k) == 0 {
+				rec(prefix+strconv.Itoa(k), used|1<<k)
+			}
+		}
+	}
+	rec("", 0)
+	return res
+}
+
+// the four states of the class annotation (absent, present and empty, ours, another value) x the class states
+var annFour = []string{"-", "f1", "o", "f"}
+
+func classStates(anns, clss []string) []string {
+	var res []string
+	for _, a := range anns {
+		for _, c := range clss {
+			res = append(res, a+"/"+c)
+		}
+	}
+	return res
+}
+
+func genLists(r *gen.Rng, thorough bool) {
+	// exhaustive: every ordered pair of class states, both listing orders (quick: the four annotation states x
+	// four class states; thorough: every value variant)
+	states := classStates(annFour, clsMain)
+	if thorough {
+		states = classStates(annTok, clsTok)
+	}
+	for _, cfg := range cfgTok {
+		for _, x := range states {
+			for _, y := range states {
+				emitList(cfg, []string{x, y}, "01")
+				emitList(cfg, []string{x, y}, "10")
+			}
+		}
+	}
+	// random clusters of 3 and 4 with mixed states: every listing order of 3, a sample of the orders of 4
+	all := classStates(annTok, clsTok)
+	p3, p4 := perms(3), perms(4)
+	nl := 150
+	if thorough {
+		nl = 3000
+	}
+	for i := 0; i < nl; i++ {
+		cfg := gen.Pick(r, cfgTok)
+		n := r.Range(3, 4)
+		items := make([]string, n)
+		for k := range items {
+			// half of the members share the ingressClassName / annotation value of another member
+			if k > 0 && r.Range(0, 1) == 0 {
+				prev := strings.Split(items[r.Range(0, k-1)], "/")
+				if r.Range(0, 1) == 0 {
+					items[k] = gen.Pick(r, annFour) + "/" + prev[1]
+				} else {
+					items[k] = prev[0] + "/" + gen.Pick(r, clsTok)
+				}
+				continue
+			}
+			items[k] = gen.Pick(r, all)
+		}
+		if n == 3 {
+			for _, p := range p3 {
+				emitList(cfg, items, p)
+			}
+		} else {
+			emitList(cfg, items, "0123")
+			emitList(cfg, items, "3210")
+			for j := 0; j < 3; j++ {
+				emitList(cfg, items, gen.Pick(r, p4))
+			}
+		}
+	}
+}
+
+func genLSync(r *gen.Rng, thorough bool) {
+	// exhaustive: two ingresses created by events (partial syncs), then a full sync in each listing order, then the
+	// first one updated to the state of the second and a full sync again
+	states := classStates(annFour, []string{"-", "o"})
+	if thorough {
+		states = classStates(annFour, clsMain)
+	}
+	for _, cfg := range cfgTok {
+		for _, x := range states {
+			for _, y := range states {
+				emitLSync(cfg, []string{"c0:" + x, "c1:" + y, "F01", "F10"})
+				emitLSync(cfg, []string{"c1:" + y, "c0:" + x, "F10", "u0:" + y + ":0", "F01"})
+			}
+		}
+	}
+	// random histories over 2..4 ingresses: events and full syncs in random listing orders
+	all := classStates(annTok, clsTok)
+	nl := 250
+	if thorough {
+		nl = 4000
+	}
+	for i := 0; i < nl; i++ {
+		cfg := gen.Pick(r, cfgTok)
+		n := r.Range(2, 4)
+		ps := perms(n)
+		l := r.Range(3, 9)
+		ops := make([]string, 0, l+1)
+		last := ""
+		for j := 0; j < l; j++ {
+			k := r.Range(0, n-1)
+			st := gen.Pick(r, all)
+			if last != "" && r.Range(0, 2) == 0 {
+				// the same ingressClassName as the last one written, another annotation state
+				st = gen.Pick(r, annFour) + "/" + strings.Split(last, "/")[1]
+			}
+			switch r.Range(0, 9) {
+			case 0, 1, 2, 3:
+				ops = append(ops, fmt.Sprintf("c%d:%s", k, st))
+				last = st
+			case 4, 5:
+				ops = append(ops, fmt.Sprintf("u%d:%s:%s", k, st, gen.Pick(r, []string{"0", "0", "a", "s", "m"})))
+				last = st
+			case 6:
+				ops = append(ops, fmt.Sprintf("d%d", k))
+			default:
+				ops = append(ops, "F"+gen.Pick(r, ps))
+			}
+		}
+		ops = append(ops, "F"+gen.Pick(r, ps))
+		emitLSync(cfg, ops)
+	}
+}
+
 // ---------------------------------------------------------------- generators
 
 func histAlphabet(anns, clss []string, ings int, touches []string) []string {
@@ -604,6 +1000,15 @@ func corpus() {
 	emitWorld("00", []string{"k:o", "ic:-/r", "k:n"})
 	emitWorld("10", []string{"ic:-/-", "iu:-/r", "k:o", "id"})
 	emitHist("00", []string{"c0:f/-", "u0:o/-:0", "c1:-/o", "u0:-/d:0", "u0:-/o:0", "d1"})
+	// one listing, two ingresses with the same ingressClassName / both unclassified, one of them with the class
+	// annotation present and EMPTY: same value as "absent", different verdict (seed C08f); both listing orders
+	for _, o := range []string{"01", "10"} {
+		emitList("00", []string{"-/o", "f1/o"}, o)
+		emitList("10", []string{"-/-", "f1/-"}, o)
+		emitList("11", []string{"-/f", "f1/f", "o/f"}, o+"2")
+	}
+	emitLSync("00", []string{"c0:-/o", "c1:f1/o", "F01", "F10"})
+	emitLSync("10", []string{"c0:f1/-", "c1:-/-", "F01", "F10", "d0", "F10"})
 }
 
 func TestC08(t *testing.T) {
@@ -639,6 +1044,10 @@ func TestC08(t *testing.T) {
 				emitHist(f[2], strings.Split(f[3], ","))
 			case f[1] == "world":
 				emitWorld(f[2], strings.Split(f[3], ","))
+			case f[1] == "list" && len(f) == 5:
+				emitList(f[2], strings.Split(f[3], ","), f[4])
+			case f[1] == "lsync":
+				emitLSync(f[2], strings.Split(f[3], ","))
 			}
 		}
 		return
@@ -736,6 +1145,10 @@ func TestC08(t *testing.T) {
 		}
 		emitWorld(gen.Pick(rw, cfgTok)+gen.Pick(rw, []string{"", "", ":d", ":t", ":x"}), ops)
 	}
+	// listings: clusters of 2..4 ingresses through the real GetIngressList in several listing orders, and
+	// histories of events and full syncs through real watchers + real converters
+	genLists(r.Fork(), thorough)
+	genLSync(r.Fork(), thorough)
 	for _, ww := range histWorlds {
 		ww.env.Close()
 	}
